@@ -81,7 +81,8 @@ def enc_unknown(num, wt, payload):
     return varint(num << 3 | wt) + payload
 
 
-UNKNOWN = [enc_unknown(900, 0, 150), enc_unknown(901, 1, b"\x01\x02\x03\x04\x05\x06\x07\x08"), enc_unknown(31, 2, b"ab"),
+# (the first carries a legal but non-minimal varint value, the third a non-minimal length prefix: re-emission is byte for byte)
+UNKNOWN = [bytes([0xa0, 0x38, 0x96, 0x81, 0x00]), enc_unknown(901, 1, b"\x01\x02\x03\x04\x05\x06\x07\x08"), bytes([0xfa, 0x01, 0x82, 0x00]) + b"ab",
            enc_unknown(903, 5, b"\xff\x00\xff\x00"), enc_unknown(2**29 - 1, 2, b"")]      # (the largest legal field number, empty payload)
 
 
